@@ -1397,6 +1397,9 @@ class Py2Cpp(ITranspiler):
 		return self.proc_binary_operation(node, elements)
 
 	def on_comparison(self, node: defs.Comparison, elements: list[str]) -> str:
+		# ビット演算子(`|` `^` `&`)はC++では比較演算子より優先度が低いため、Pythonの`a & b == c`は`(a & b) == c`として出力する
+		bitwise_types = (defs.OrBitwise, defs.XorBitwise, defs.AndBitwise)
+		elements = [f'({element})' if isinstance(node.elements[index], bitwise_types) else element for index, element in enumerate(elements)]
 		return self.proc_binary_operation(node, elements)
 
 	def on_or_bitwise(self, node: defs.OrBitwise, elements: list[str]) -> str:
